@@ -5,6 +5,7 @@ mod decode;
 mod files;
 mod iters;
 mod layout;
+mod merger;
 mod util;
 
 use std::path::PathBuf;
@@ -30,6 +31,7 @@ fn run_scenario(out: &mut TraceOut, family: &str, seed: u64, idx: u64, heavy: bo
         "ranges" => iters::scn_iters(out, &mut r, idx, heavy, 2, true, false),
         "prefixes" => iters::scn_iters(out, &mut r, idx, heavy, 2, false, true),
         "iters_v1" => iters::scn_iters(out, &mut r, idx, heavy, 1, true, true),
+        "merge" => merger::scn_merge(out, &mut r, idx, heavy),
         "format" => layout::scn_format(out, &mut r, idx, heavy),
         "cut" => layout::scn_cut(out, &mut r, idx, heavy),
         "unsorted" => layout::scn_unsorted(out, &mut r, idx, heavy),
